@@ -170,6 +170,8 @@ def main():
     rnd = random.Random(int(os.environ.get("VERIF_SEED", "0")))
     inputs = [(st.sql(), "ansi", name) for name, st in gen_stmt.statements() if thorough or "/col/" in name or "/func/" in name or "unqualified" in name]
     inputs += [(sql, "ansi", name) for name, (sql, exp) in gen_stmt.unions()]
+    # repaired D17: layout inside a dotted reference (the T-SQL grammar admits it)
+    inputs += [("insert into t select * from a.b", "tsql", "D17"), ("insert into t select c1 from x.a.b", "tsql", "D17")]
     corp = harvest_tests()
     if thorough:
         corp += harvest_tpcds()[:10]
@@ -187,6 +189,8 @@ def main():
         variants = [(n, f(sql)) for n, f in REWRITES_ALL]
         if dialect == "ansi" and "`" not in sql and '"' not in sql:
             variants.append(("R5 quote lower-case identifiers", r_quote(sql)))
+        if where == "D17":
+            variants += [("R1 layout inside a dotted reference", sql.replace(".", " . ")), ("R2 comment inside a dotted reference", sql.replace(".", "./*c*/"))]
         g = gaps(sql)
         picks = range(len(g)) if thorough else rnd.sample(range(len(g)), min(3, len(g)))
         for k in picks:
